@@ -120,13 +120,24 @@ class Unsafe(Exception):
     external codec, see notes/C05.md) - such streams are not generated"""
 
 
+MARSHAL_TYPES = b"0NFTS.iIfgxylstR()[{cu?<>aAzZr"
+MARSHAL_ID = 2          # serializers.MarshalSerializer.serializer_id (asserted in c05.extract)
+
+
+def marshal_safe(data, bases):
+    """marshal.loads(data) fails (or succeeds) without allocating by a corrupted length: data is a payload marshal
+    produced, a truncation of one, or does not start with a marshal type code / is JSON text"""
+    if any(b["ser"] == MARSHAL_ID and b["payload"].startswith(data) for b in bases) or not data:
+        return True
+    return (data[0] & 0x7f) not in MARSHAL_TYPES or data[:2] == b'{"'
+
+
 def classify_body(msg, fresh, bases):
     """item body tokens for a message recv_stub accepted, or None when it cannot be told"""
     from Pyro5 import serializers, protocol
     ser = serializers.serializers_by_id.get(msg.serializer_id)
     data = bytes(msg.data)
-    if msg.serializer_id == 3 and not (msg.type == 6 and not fresh) and not any(data == b["payload"] and b["ser"] == 3 for b in bases) \
-            and data[:1] and (data[0] & 0x7f) in b"([<>{":
+    if msg.serializer_id == MARSHAL_ID and not (msg.type == 6 and not fresh) and not marshal_safe(data, bases):
         raise Unsafe()
     if msg.type == 6 and not fresh:
         return ["U"]
